@@ -1,7 +1,7 @@
 //! C11 — pruning is fail-safe when the LP solver misbehaves.
 //! Exhaustive enumeration of fault plans (deviation-bounded) over the LP calls of a run,
 //! injected through the cfg(affinitree_verif) hook in Polytope::solve_linprog.
-use super::c03::{cases as c03_cases, Case as HCase};
+use super::c03::Case as HCase;
 use super::c04::cache_sound;
 use super::common::*;
 use crate::hist::Op;
@@ -12,7 +12,7 @@ use affinitree::pwl::afftree::AffTree;
 use serde_json::json;
 
 fn kinds() -> Vec<Fault> {
-    vec![Fault::Error("injected".into()), Fault::Unbounded, Fault::Perturbed(1e-6), Fault::Perturbed(1e-3), Fault::FarOff(1e3)]
+    vec![Fault::Error("injected".into()), Fault::Unbounded, Fault::Perturbed(1e-6), Fault::Perturbed(1e-3), Fault::FarOff(1e3), Fault::FarOff(-100.0)]
 }
 
 fn kind_name(f: &Fault) -> &'static str {
@@ -20,16 +20,15 @@ fn kind_name(f: &Fault) -> &'static str {
         Fault::Error(_) => "Error",
         Fault::Unbounded => "Unbounded",
         Fault::Perturbed(e) => if *e < 1e-4 { "Perturbed(1e-6)" } else { "Perturbed(1e-3)" },
-        Fault::FarOff(_) => "FarOff",
+        Fault::FarOff(o) => if *o > 0.0 { "FarOff(+1e3)" } else { "FarOff(-1e2)" },
     }
 }
 
 /// programs: histories ending in a pruning operation whose last step solves at least one LP
 pub fn programs(tier: Tier) -> Vec<HCase> {
-    let all = c03_cases(tier);
-    let want = match tier { Tier::Quick => 400, Tier::Thorough => 4000 };
-    let stride = (all.len() / want).max(1);
-    all.into_iter().enumerate().filter(|(i, _)| i % stride == 0).map(|(_, c)| c).collect()
+    // fixed strides through the deterministic enumeration of the C03 space
+    let stride = match tier { Tier::Quick => 3001, Tier::Thorough => 4001 };
+    super::c03::cases_strided(tier, stride)
 }
 
 struct Prepared {
@@ -182,6 +181,49 @@ pub fn run_program(c: &HCase, tier: Tier) -> CaseOut {
     out
 }
 
+/// C05 stage: the witness-repair path of phase_two is only reached when the solver's point is
+/// rejected; every single witness fault at every LP call, cache soundness as the only oracle.
+pub fn cache_under_witness_faults(tier: Tier) -> CaseOut {
+    let ps = programs(tier);
+    par_cases(&ps, |_, c| {
+        let mut out = CaseOut::default();
+        let rec = || json!({"init": c.init.to_json(), "ops": c.ops.iter().map(|o| o.to_json()).collect::<Vec<_>>()});
+        let pr = match catch(|| prepare(c)) {
+            Ok(Some(p)) => p,
+            _ => return out,
+        };
+        // fault-free run for the number of calls
+        let mut t = pr.before.clone();
+        hooks::set_plan(vec![]);
+        let _ = pr.last.run(&mut t, pr.d);
+        let n = hooks::calls();
+        hooks::clear();
+        for i in 0..n {
+            for k in [Fault::Perturbed(1e-6), Fault::Perturbed(1e-3), Fault::FarOff(1e3), Fault::FarOff(-100.0), Fault::FarOff(3.0)] {
+                let mut t = pr.before.clone();
+                hooks::set_plan(vec![(i, k.clone())]);
+                let res = pr.last.run(&mut t, pr.d);
+                let inj = hooks::injected();
+                hooks::clear();
+                out.add("witness_fault_runs", 1);
+                out.add("transitions", 1);
+                out.add("witness_faults_reached", (inj > 0) as u64);
+                if res.is_err() {
+                    continue; // panics under faults are C11's business
+                }
+                let s = snap(&t);
+                for (tag, msg) in cache_sound(&s).into_iter().take(1) {
+                    let mut r = rec();
+                    r["fault_plan"] = json!([{"lp_call": i, "fault": kind_name(&k)}]);
+                    r["arena_after"] = s.to_json();
+                    out.violate(Violation::new(format!("{} with a rejected solver point ({} at LP call {i}): {msg}", pr.last.name(), kind_name(&k)), r).tag("kind", "cache").tag("inv", tag).tag("op", pr.last.name()).tag("via", "witness_fault"));
+                }
+            }
+        }
+        out
+    })
+}
+
 pub fn run(tier: Tier) -> Report {
     let mut rep = Report::new("C11", tier, "fault_enumeration");
     let ps = programs(tier);
@@ -189,7 +231,7 @@ pub fn run(tier: Tier) -> Report {
     rep.absorb(total);
     let reached = rep.coverage.get("plans_fault_reached").and_then(|v| v.as_u64()).unwrap_or(0);
     rep.set("distinct_nontrivial", reached);
-    rep.set("rule", "programs: every k-th history of the C03 space (ending in infeasible_elimination or a pruned composition); per program the fault-free run fixes the number N of LP calls; plans: no fault, every single call index x {Error, Unbounded, Perturbed(1e-6), Perturbed(1e-3), FarOff(1e3)}, every pair of indices (< N+2) x kind pairs when N <= limit, every subset of >= 3 indices x {Error, Unbounded, Perturbed(1e-3), FarOff} when N is small; one evaluation per (program, plan); non-trivial = every fault of the plan was actually injected (the call index was reached); distinct by enumeration");
+    rep.set("rule", "programs: every k-th history of the C03 space (ending in infeasible_elimination or a pruned composition); per program the fault-free run fixes the number N of LP calls; plans: no fault, every single call index x {Error, Unbounded, Perturbed(1e-6), Perturbed(1e-3), FarOff(+1e3), FarOff(-1e2)}, every pair of indices (< N+2) x kind pairs when N <= limit, every subset of >= 3 indices x {Error, Unbounded, Perturbed(1e-3), FarOff} when N is small; one evaluation per (program, plan); non-trivial = every fault of the plan was actually injected (the call index was reached); distinct by enumeration");
     rep.set("bound", match tier {
         Tier::Quick => "about 400 programs; pairs for N <= 8; full subsets for N <= 4",
         Tier::Thorough => "about 4000 programs; pairs for N <= 14; full subsets for N <= 6",
